@@ -807,6 +807,11 @@ func (u *connectUnaryUnmarshaler) UnmarshalFunc(message any, unmarshal func([]by
 		// Attempt to read to end in order to allow connection re-use
 		discardedBytes, err := io.Copy(io.Discard, u.reader)
 		if err != nil {
+			if connectErr, ok := asError(err); ok {
+				// As for the read above: the end of the call's context, say,
+				// isn't the peer's invalid argument.
+				return connectErr
+			}
 			return errorf(CodeInvalidArgument, "message is larger than configured max %d - unable to determine message size: %w", u.readMaxBytes, err)
 		}
 		return errorf(CodeInvalidArgument, "message size %d is larger than configured max %d", bytesRead+discardedBytes, u.readMaxBytes)
